@@ -349,6 +349,11 @@ class Executor:
         try:
             return fr.locals[local]
         except KeyError:
+            # zero-sized values are never initialised by a MIR statement: a closure that captures nothing, the unit value
+            ty = fr.fn.locals.get(local) if isinstance(fr.fn.locals, dict) else None
+            if isinstance(ty, str):
+                if ty.startswith('{closure@'): return Closure(ty, ())
+                if ty == '()': return UNIT
             raise Unsupported('read of unassigned %s in %s' % (local, fr.fn.name))
 
     def project(s, st, v, p, fr):
